@@ -30,7 +30,11 @@ slice      property statement ("visits exactly the items prescribed by the refer
            reversed applies to the kept segment.  tag_reference.md#limit/#offset/#reversed.
 continue   tag_reference.md#offset: "the loop will start from where a previous loop with the
            same iterable left off" -- only for loops with the same identifier AND iterable
-           (the property's "sharing offset:continue keys"), only after ordinary slices.
+           (the property's "sharing offset:continue keys").  The remembered position is the index
+           after the last item of the previous segment, or the previous loop's own start when it
+           visited nothing (zero/negative limit at a non-negative start).  NOT decided after a loop
+           with a negative offset (reference implementation: from + items kept; docs: where it
+           left off) and after a loop that used break.
 else       property statement ("renders its else block exactly when no item is visited");
            tag_reference.md#for.
 interrupt  property statement ("honours break and continue"); tag_reference.md#break/#continue
